@@ -230,7 +230,7 @@ func kindAt(toks []reflex.Token, i int) string {
 
 // Tokens no Lua lexer accepts: inserted before position p of a seed (one token
 // per line) they are the first point at which no chunk can continue.
-var badTokens = []string{"@", "$", "!", "?", "`", "\\", "\"abc", "'x", "\"a\\q\"", "3x", "0x", "1e+"}
+var badTokens = []string{"@", "$", "!", "?", "`", "\\", "\"abc", "'x", "\"a\\q\"", "3x", "0x", "1e+", "\"\\300\"", "'\\u{80000000}'"}
 
 func badTokenFamily(tier string) *core.Family {
 	type bc struct{ seed, pos, bad int }
@@ -263,7 +263,11 @@ func badTokenFamily(tier string) *core.Family {
 			id := fmt.Sprintf("bad=%q seed=%s pos=%d", badTokens[c.bad], seeds[c.seed].name, c.pos)
 			if ok {
 				vs = append(vs, viol("errline-badtoken clause=accepted "+id, "text with an invalid token accepted:\n%s", strings.Join(texts, " ")))
-			} else if got := errLine(msg); got != c.pos+1 {
+			} else if got := errLine(msg); got == 0 {
+				// no position at all: one key per token, wherever it stands
+				vs = append(vs, viol(fmt.Sprintf("errline-badtoken clause=no-line bad=%q", badTokens[c.bad]), "one token per line:\n%s\nthe invalid token %q is on line %d; golua's error carries no chunk:LINE: prefix: %s",
+					strings.Join(texts, " "), badTokens[c.bad], c.pos+1, msg))
+			} else if got != c.pos+1 {
 				vs = append(vs, viol("errline-badtoken clause=line "+id, "one token per line:\n%s\nthe invalid token %q is on line %d; golua reports line %d: %s",
 					strings.Join(texts, " "), badTokens[c.bad], c.pos+1, got, msg))
 			}
